@@ -1,5 +1,6 @@
 // IDManager scenarios: C05 (unique, in range, stable), C14 (capacity never lost), C15 (heartbeats).
 // Capacity DBGROUP_MAX_THREAD_NUM is a build variant (N1, N2, N3, N4, N8).
+#include <algorithm>
 #include <memory>
 #include <string>
 #include <vector>
@@ -29,7 +30,7 @@ void set_probe_hash(size_t h) { tl_probe_hash = h; }
 
 namespace
 {
-enum Profile : int { kTogether = 0, kWaves = 1, kExitRace = 2 };
+enum Profile : int { kTogether = 0, kWaves = 1, kExitRace = 2, kHandover = 3 };
 // per thread: op[0] = {kind 0, obj = start delay (yields by main before spawning), a = probe hash, b = number of GetThreadID calls,
 //                      c = hold yields}
 enum Probe : int { pWrap = 0, pReusedId, pClaimDuringExit, pOversubscribedWait, pFinalRound, pHbChecks, pProbes };
@@ -173,6 +174,69 @@ void worker_fn(void *p)
   end_user_code(first);
 }
 
+// hand-over histories (profile 3): kN holders keep their IDs until the coordinator tells one of them to exit; extra claimants
+// that found every ID taken must obtain the released one ("as soon as some holder exits"), the other holders exit only afterwards
+void holder_fn(void *p)
+{
+  const auto *w = static_cast<WArg *>(p);
+  const Op &o = S->prog->threads[static_cast<size_t>(w->tid)][0];
+  tl_probe_hash = static_cast<size_t>(o.a);
+  const size_t id = get_id_checked(0, 0);
+  dsim::op_begin("GetHeartBeat", 0);
+  std::weak_ptr<size_t> hb = IDManager::GetHeartBeat();
+  dsim::op_end();
+  S->hbs.push_back(HbRec{hb, dsim::self(), id});
+  dsim::signal(0);
+  dsim::wait_signal();  // hold the ID until told to exit
+  check_heartbeats_alive("holder before exit");
+  end_user_code(id);
+}
+void claimant_fn(void *p)
+{
+  const auto *w = static_cast<WArg *>(p);
+  const Op &o = S->prog->threads[static_cast<size_t>(w->tid)][0];
+  tl_probe_hash = static_cast<size_t>(o.a);
+  const size_t id = get_id_checked(0, 0);  // every ID is taken when this starts: returns once a holder has exited
+  dsim::probe(pOversubscribedWait);
+  dsim::signal(0);
+  for (int64_t i = 0; i < o.c; ++i) dsim::yield();
+  end_user_code(id);
+}
+
+void run_handover(const Program &p)
+{
+  const int n = static_cast<int>(p.threads.size());
+  std::vector<WArg> args(static_cast<size_t>(n));
+  std::vector<int> ids(static_cast<size_t>(n), -1);
+  std::vector<int> holders, claimants;
+  for (int t = 0; t < n; ++t) (p.threads[static_cast<size_t>(t)][0].kind == 1 ? holders : claimants).push_back(t);
+  for (int t : holders) {
+    args[static_cast<size_t>(t)].tid = t;
+    ids[static_cast<size_t>(t)] = dsim::spawn(holder_fn, &args[static_cast<size_t>(t)], "holder");
+  }
+  for (size_t i = 0; i < holders.size(); ++i) dsim::wait_signal();  // every holder has its ID
+  set_phase("history");
+  for (int t : claimants) {
+    args[static_cast<size_t>(t)].tid = t;
+    ids[static_cast<size_t>(t)] = dsim::spawn(claimant_fn, &args[static_cast<size_t>(t)], "claimant");
+  }
+  // holders exit in the order given by their `obj` field, one per waiting claimant; the rest only after every claimant succeeded
+  std::vector<int> order = holders;
+  std::sort(order.begin(), order.end(), [&](int a, int b) { return p.threads[static_cast<size_t>(a)][0].obj < p.threads[static_cast<size_t>(b)][0].obj; });
+  size_t next = 0;
+  for (size_t c = 0; c < claimants.size() && next < order.size(); ++c) {
+    for (int64_t y = 0; y < p.threads[static_cast<size_t>(claimants[c])][0].obj; ++y) dsim::yield();  // let the claimants sweep the table first
+    dsim::signal(ids[static_cast<size_t>(order[next++])]);
+    dsim::wait_signal();  // some claimant obtained the released ID
+  }
+  while (next < order.size()) dsim::signal(ids[static_cast<size_t>(order[next++])]);
+  for (int t = 0; t < n; ++t) {
+    dsim::join(ids[static_cast<size_t>(t)]);
+    S->joined[ids[static_cast<size_t>(t)]] = true;
+    check_heartbeats_alive("after join");
+  }
+}
+
 // final phase: kN fresh threads must all obtain distinct IDs while all of them are alive (no slot stayed reserved)
 void final_fn(void *p)
 {
@@ -201,7 +265,8 @@ void entry(void *)
   std::vector<WArg> args(static_cast<size_t>(n));
   std::vector<int> ids(static_cast<size_t>(n));
   bool any_exit = false;
-  for (int t = 0; t < n; ++t) {
+  if (p.profile == kHandover) run_handover(p);
+  for (int t = 0; t < n && p.profile != kHandover; ++t) {
     const Op &o = p.threads[static_cast<size_t>(t)][0];
     for (int i = 0; i < o.obj; ++i) dsim::yield();
     args[static_cast<size_t>(t)].tid = t;
@@ -211,7 +276,7 @@ void entry(void *)
     ids[static_cast<size_t>(t)] = dsim::spawn(worker_fn, &args[static_cast<size_t>(t)], "worker");
   }
   set_phase("history");
-  for (int t = 0; t < n; ++t) {
+  for (int t = 0; t < n && p.profile != kHandover; ++t) {
     dsim::join(ids[static_cast<size_t>(t)]);
     S->joined[ids[static_cast<size_t>(t)]] = true;
     S->holders--;
@@ -242,6 +307,30 @@ void entry(void *)
   S = nullptr;
 }
 
+void generate_handover(Program &prog, dsim::Rng &pr)
+{
+  const int n = static_cast<int>(kN);
+  const int k = 1 + static_cast<int>(pr.below(n >= 2 ? 2 : 1));
+  const int pattern = static_cast<int>(pr.below(4));
+  const size_t base = pr.below(1000);
+  prog.params = {static_cast<int64_t>(n), pattern};
+  prog.threads.clear();
+  for (int t = 0; t < n + k; ++t) {
+    Op o;
+    o.kind = t < n ? 1 : 2;                                  // 1 = holder, 2 = claimant
+    o.obj = static_cast<int>(pr.below(t < n ? 1000 : 12));   // holder: exit order key; claimant: yields before the first holder exits
+    switch (pattern) {
+      case 0: o.a = static_cast<int64_t>(base); break;
+      case 1: o.a = static_cast<int64_t>(base + static_cast<size_t>(t)); break;
+      case 2: o.a = static_cast<int64_t>(static_cast<size_t>(n) * (1 + base) + static_cast<size_t>(n) - 2 + static_cast<size_t>(t % 2)); break;
+      default: o.a = static_cast<int64_t>(pr.below(100000)); break;
+    }
+    o.b = 1;
+    o.c = static_cast<int64_t>(pr.below(4));
+    prog.threads.push_back({o});
+  }
+}
+
 void generate(Program &prog, dsim::Config &cfg, dsim::Rng &pr, dsim::Rng &cr, int, int profile)
 {
   const int n = static_cast<int>(kN);
@@ -258,7 +347,11 @@ void generate(Program &prog, dsim::Config &cfg, dsim::Rng &pr, dsim::Rng &cr, in
   const size_t base = pr.below(1000);
   prog.params = {static_cast<int64_t>(n), pattern};
   prog.threads.clear();
-  for (int t = 0; t < T; ++t) {
+  if (profile == kHandover && n <= 8) {
+    generate_handover(prog, pr);
+    T = static_cast<int>(prog.threads.size());
+  }
+  for (int t = 0; t < T && !(profile == kHandover && n <= 8); ++t) {
     Op o;
     o.kind = 0;
     o.obj = profile == kTogether ? 0 : static_cast<int>(pr.below(profile == kWaves ? 7 : 3));
@@ -294,7 +387,12 @@ std::string render(const Program &p)
   std::string s = "IDManager capacity " + std::to_string(p.params.empty() ? 0 : p.params[0]) + ", " + std::to_string(p.threads.size()) +
                   " threads over time, " + pat[(p.params.size() > 1 ? p.params[1] : 3) & 3] + "; afterwards " +
                   std::to_string(p.params.empty() ? 0 : p.params[0]) + " fresh threads alive together\n";
-  for (size_t t = 0; t < p.threads.size(); ++t) {
+  for (size_t t = 0; t < p.threads.size() && p.profile == kHandover; ++t) {
+    const Op &o = p.threads[t][0];
+    s += "  T" + std::to_string(t + 1) + (o.kind == 1 ? ": holder, probe hash " + std::to_string(o.a) + ", keeps its ID until told to exit (order key " + std::to_string(o.obj) + ")\n"
+                                                       : ": claimant started when every ID is taken, probe hash " + std::to_string(o.a) + "\n");
+  }
+  for (size_t t = 0; t < p.threads.size() && p.profile != kHandover; ++t) {
     const Op &o = p.threads[t][0];
     s += "  T" + std::to_string(t + 1) + ": spawned after " + std::to_string(o.obj) + " yields, probe hash " + std::to_string(o.a) + ", GetThreadID x" +
          std::to_string(o.b) + " + GetHeartBeat, holds for " + std::to_string(o.c) + " yields, exits\n";
